@@ -450,6 +450,50 @@ static int run_ro(const char *tmpl, const char *work, int from, int to) {
     return 0;
 }
 
+/* as run_ro, with a SECOND file open in MODIFY mode and made the library's current file (a read of it) right before every
+   call: whatever a call on the read-only handle / on a position inside the read-only file consults, it must be that
+   file's own mode.  The other file must come out as a bare open + close in MODIFY mode leaves it. */
+static int run_ro2(const char *tmpl, const char *work, int from, int to) {
+    char h0[80], h1[80], v0[80], v1[80], other[1024], ctl[1024], t0[80], t1[80]; int i, f2 = 0, nb;
+    snprintf(other, sizeof other, "%s.other", work); snprintf(ctl, sizeof ctl, "%s.ctl", work);
+    copy_file(tmpl, work); file_sha(work, h0);
+    copy_file(tmpl, ctl);
+    if (cg_open(ctl, CG_MODE_MODIFY, &f2)) { printf("CONTROL OPENFAIL %s\n", cg_get_error()); return 1; }
+    cg_close(f2); f2 = 0; tree_digest(ctl, t0);
+    make_closed(work);
+    for (i = from; i < to && i < NENTRIES; i++) {
+        const entry_t *e = &entries[i]; int st; const char *m;
+        if (e->flags & F_CGIO) continue;
+        if (!g_fn) {
+            copy_file(tmpl, other);
+            if (open_handles(work, CG_MODE_READ, 0) || cg_open(other, CG_MODE_MODIFY, &f2)) { printf("R %s v=0 OPENFAIL %s\n", e->name, cg_get_error()); close_handles(); continue; }
+        }
+        view(g_fn, v0); set_ctx(g_fn, e->ctx);
+        printf("C %s v=0\n", e->name); fflush(stdout);
+        cg_nbases(f2, &nb);                               /* the library's current file is now the writable one */
+        clear_err(); reset_pp();
+        st = e->call(0);
+        m = last_msg(0, st);
+        { const char *mc = msg_class(st, m); snprintf(g_mc, sizeof g_mc, "%s", mc); }
+        file_sha(work, h1);
+        view(g_fn, v1);
+        printf("R %s v=0 st=%d msg=%s file=%s view=%s\n", e->name, st, g_mc, strcmp(h0, h1) ? "CHANGED" : "same", strcmp(v0, v1) ? "CHANGED" : "same");
+        fflush(stdout);
+        if (strcmp(h0, h1) || strcmp(v0, v1) || (e->flags & F_REOPEN) || st == 0) {
+            /* start again from fresh copies; the other file is judged first */
+            close_handles(); if (f2) { cg_close(f2); f2 = 0; }
+            tree_digest(other, t1);
+            if (strcmp(t0, t1)) printf("O %s other=CHANGED\n", e->name);
+            copy_file(tmpl, work);
+        }
+    }
+    close_handles(); if (f2) cg_close(f2);
+    tree_digest(other, t1);
+    file_sha(work, h1);
+    printf("END file=%s other=%s\n", strcmp(h0, h1) ? "CHANGED" : "same", strcmp(t0, t1) ? "CHANGED" : "same");
+    return 0;
+}
+
 /* fresh copy per call; the tree of the file after close is compared with the tree after a bare open+close in that mode */
 static int run_md(const char *tmpl, const char *work, int from, int to, int mode, int vfrom, int only_v0) {
     char t0[80], t1[80], v0[80], v1[80], h0[80], h1[80]; int i, v;
@@ -532,6 +576,7 @@ int main(int argc, char **argv) {
     if (!strcmp(argv[1], "tree") && argc >= 3) { char t[80]; g_full = argc > 3; tree_digest(argv[2], t); printf("tree %s\n", t); return 0; }
     if (!strcmp(argv[1], "list")) { int i; for (i = 0; i < NENTRIES; i++) printf("%d %s %d %d\n", i, entries[i].name, entries[i].nvar, entries[i].flags); return 0; }
     if (!strcmp(argv[1], "ro") && argc >= 6) return run_ro(argv[2], argv[3], atoi(argv[4]), atoi(argv[5]));
+    if (!strcmp(argv[1], "ro2") && argc >= 6) return run_ro2(argv[2], argv[3], atoi(argv[4]), atoi(argv[5]));
     if (!strcmp(argv[1], "md") && argc >= 6) return run_md(argv[2], argv[3], atoi(argv[4]), atoi(argv[5]), argc > 6 ? atoi(argv[6]) : CG_MODE_MODIFY, 0, 1);
     if (!strcmp(argv[1], "inv") && argc >= 7) return run_md(argv[2], argv[3], atoi(argv[5]), atoi(argv[6]), atoi(argv[4]), argc > 7 ? atoi(argv[7]) : 1, 0);
     if (!strcmp(argv[1], "seq") && argc >= 6) return run_seq(argv[2], argv[3], atoi(argv[4]), atoi(argv[5]), argv + 6);
